@@ -179,7 +179,7 @@ def run(rep, tier, seed, selftest):
     # ---------------------------------------------------------------- 3. determinism
     rnd = random.Random(seed)
     k = 3 if tier == "quick" else 8
-    budget = 2500 if tier == "quick" else 30000
+    budget = 2500 if tier == "quick" else 12000
     multi, single = [], []
     for inp, evs, _ in pc.grouped_events(p["events"]):
         end, _last = pc.end_of(evs)
